@@ -459,6 +459,48 @@ def _rewrite_iter(body, bi, t, kind, by_path):
     return True
 
 
+def _only_branched_on(body, l, depth=0):
+    """every use of local l is `switchInt(l)` or `!l` whose result is itself only branched on"""
+    if depth > 3:
+        return False
+
+    def uses(o):
+        if isinstance(o, dict):
+            if "l" in o and isinstance(o.get("p"), list):
+                return 1 if o["l"] == l or any(isinstance(el, dict) and el.get("index") == l for el in o["p"]) else 0
+            return sum(uses(v) for k, v in o.items() if k not in ("span", "fn"))
+        if isinstance(o, list):
+            return sum(uses(v) for v in o)
+        return 0
+    for blk in body["blocks"]:
+        for st in blk["stmts"]:
+            if st.get("s") == "assign":
+                n = uses(st["rv"])
+                if n:
+                    rv = st["rv"]
+                    if rv.get("rv") == "un" and rv.get("op") == "Not" and not st["pl"]["p"] and _only_branched_on(body, st["pl"]["l"], depth + 1):
+                        continue
+                    return False
+                if st["pl"]["p"] and uses({"x": st["pl"]}):
+                    return False
+            elif uses(st):
+                # storage markers etc. carry no place in the fact format; anything else is a use
+                return False
+        t = blk["term"]
+        if t.get("t") == "switch":
+            if uses(t.get("discr")) and t["discr"].get("pl", {}).get("p"):
+                return False
+            continue
+        if t.get("t") == "call":
+            # the call that defines l itself has it as destination only
+            if uses(t.get("args")) or uses(t.get("func")):
+                return False
+            continue
+        if uses({k: v for k, v in t.items() if k != "span"}):
+            return False
+    return True
+
+
 def _rewrite(body, bi, t, spec, by_path):
     subject_enum, actions, result_enum = spec
     args = t["args"]
@@ -484,6 +526,8 @@ def _rewrite(body, bi, t, spec, by_path):
     dest = t["dest"]
     if dest["p"]:
         return False
+    if all(act[0] == "bool" for act in actions.values()) and not _only_branched_on(body, dest["l"]):
+        return False      # the verdict is stored / returned / passed on: it stays a call
     dl, dty = dest["l"], dest["ty"]
     target, unwind = t["target"], t.get("unwind")
     blk = body["blocks"][bi]
